@@ -15,11 +15,11 @@ SPEC = {
               21: "4xx answer (nothing failed in the cluster) but a cluster operation was performed", 22: "answer without exactly the operation the route names / malformed part not refused",
               23: "body is not a single JSON document", 24: "5xx answer without a failing cluster call", 30: "client call did not arrive with the arguments it was given",
               31: "client did not return what the server answered"},
-    "tags": {1: "client-pinpath-recover-shadowed"},
+    "tags": {},
     "trusted": ["harness/api_rest/c11_rig_test.go: recording Cluster/PeerMonitor/IPFSConnector RPC services behind the real NewAPI",
                 "net/http, gorilla/mux cleanPath, rs/cors, net/url, go-cid, go-path, peer.Decode, PinOptions.FromQuery, AddParamsFromQuery, TrackerStatusFromString: outcomes are inputs of the model",
                 "tools/gen/restroutes.go, tools/gen/restclient.go (syntactic translators)"],
-    "level_text": "24 theorems (Props/C11.v, all closed) over the Gallina transcription of the REST layer (basic-auth wrapper outside rs/cors outside the router, "
+    "level_text": "23 theorems (Props/C11.v, all closed) over the Gallina transcription of the REST layer (basic-auth wrapper outside rs/cors outside the router, "
                   "mux matching with StrictSlash over the generated route table Gen/RestRoutes.v, the 21 handlers, sendResponse) and of the client's request "
                   "construction (Gen/RestClient.v), for every request, parser outcome, credential configuration and RPC failure script: rest_fail_closed (a malformed "
                   "part: exactly 400, one document, no call), rest_wellformed_translated / rest_calls_exact (otherwise, and whenever anything is called, exactly the "
@@ -30,8 +30,8 @@ SPEC = {
                   "compared with the real API and the real client library on generated requests at every run and the implementation's own observations are checked "
                   "against the boolean form of the property",
     "level_note": "model tied to code by regenerated tables plus differential testing (generator-bounded); parsers are abstract; the /add NDJSON stream is the documented "
-                  "exception to the single-document clause; 301 redirects (cleanPath, StrictSlash) are router behaviour; the client clause holds under client_guard: "
-                  "client_faithful_pinpath_recover_refuted (PinPath of /ipns/recover is taken by the Recover route, a recorded finding) and unescaped path arguments "
+                  "exception to the single-document clause; 301 redirects (cleanPath, StrictSlash) are router behaviour; the client clause holds under client_guard "
+                  "(arguments that are single path segments / canonical IPFS paths; PinPath of /ipns/recover arrives since fix-S26): unescaped path arguments "
                   "(metric names / IPFS paths containing % ? # or empty segments) are outside it; libp2p-http endpoint and TLS not exercised",
     "assumptions": ["parsers are abstract (their accept/reject outcome and value is an input); client_options_faithful / client_filter_faithful instantiate the round-trip outcomes with C08's query_roundtrip and status_roundtrip_valid",
                     "RPC outcomes are an input (failure script)"],
